@@ -13,7 +13,7 @@ from . import seams
 from .ddmin import minimise
 
 VERIF_DIR = boot.VERIF_DIR
-REPLAY_DIR = os.path.join(VERIF_DIR, "replays")
+REPLAY_DIR = os.environ.get("VERIF_REPLAY_DIR") or os.path.join(VERIF_DIR, "replays")
 EVID_DIR = os.path.join(VERIF_DIR, "evidence")
 
 
